@@ -26,7 +26,8 @@ import (
 // Does this symbol need to be quoted in text form?
 func symbolNeedsQuoting(sym string) bool {
 	switch sym {
-	case "", "null", "true", "false", "nan":
+	case "", "null", "true", "false", "nan", "$ion_1_0":
+		// (an unquoted $ion_1_0 at the top level would be read back as a version marker)
 		return true
 	}
 
